@@ -112,6 +112,23 @@ func runC03(c *core.Ctx) {
 			k.goit("restore", "--staged", "deep")
 			k.goit("commit", "-m", "again")
 		}
+		if w.Hist%12 == 7 {
+			// a name that is a directory in HEAD and a file in the staging area (and the other way round), then unstaged:
+			// what goes back into the staging area must be blobs, never the id of a tree
+			w.Write("sw/x", k.content())
+			w.Write("sw2", k.content())
+			k.goit("add", "sw", "sw2")
+			k.goit("commit", "-m", "a directory and a file")
+			w.Edit("rmdir", "sw", nil)
+			w.Write("sw", k.content())
+			w.Edit("rm", "sw2", nil)
+			w.Write("sw2/y", k.content())
+			k.goit("add", "sw", "sw/x", "sw2")
+			k.goit("restore", "--staged", "sw")
+			k.goit("restore", "--staged", "sw2")
+			k.goit("commit", "-m", "after unstaging the swap")
+			k.goit("status")
+		}
 		if w.Hist%12 == 2 {
 			// a tracked path that has become a symbolic link INTO the object store: bringing the file back (restore,
 			// reset --hard) must replace the link, not write the blob's bytes into a stored object
